@@ -6,6 +6,7 @@
 package qsim
 
 import (
+	"bytes"
 	"context"
 	"encoding/json"
 	"fmt"
@@ -136,6 +137,7 @@ type Node struct {
 	Byz      bool
 	Silent   bool
 	Start    []byte
+	Refuses  []byte // a value this operator's own value check rejects although it is well formed (Config.Picky)
 	ArmedH   specqbft.Height
 	ArmedR   specqbft.Round // 0 = not armed
 	Arms     int
@@ -208,6 +210,10 @@ type Config struct {
 	// compacted exactly like runner.compactInstanceIfNeeded does in the real node (the controller alone never compacts).
 	RunnerCompaction bool
 	ByzIDs           []int // optional explicit choice of the Byzantine operators (indices 0..N-1); nil = drawn by the rng
+	// Picky > 0: operator number Picky (if correct) refuses one of the values that the others accept (its own value check
+	// differs, as with per-operator slashing-protection stores); PickyValue indexes Values
+	Picky      int
+	PickyValue int
 }
 
 type Cluster struct {
@@ -271,12 +277,18 @@ func NewCluster(env *Env, rng *rand.Rand, cfg Config) *Cluster {
 		default:
 			n.Start = c.Values[i%2]
 		}
+		if cfg.Picky == i+1 && !n.Byz {
+			n.Refuses = c.Values[cfg.PickyValue%len(c.Values)]
+			if bytes.Equal(n.Start, n.Refuses) {
+				n.Start = c.Values[(cfg.PickyValue+1)%len(c.Values)]
+			}
+		}
 		n.Store = &recStore{QBFTStore: ibftstorage.New(env.DB, fmt.Sprintf("%s-n%d", c.tag, i)), n: n}
 		n.Cfg = &qbft.Config{
 			Signer:                testingutils.NewTestingKeyManager(),
 			SigningPK:             ks.Shares[oid].GetPublicKey().Serialize(),
 			Domain:                Domain,
-			ValueCheckF:           ValueCheck,
+			ValueCheckF:           n.ValueCheck,
 			ProposerF:             specqbft.RoundRobinProposer,
 			Storage:               n.Store,
 			Network:               &capNet{n},
@@ -287,6 +299,14 @@ func NewCluster(env *Env, rng *rand.Rand, cfg Config) *Cluster {
 		c.Nodes = append(c.Nodes, n)
 	}
 	return c
+}
+
+// ValueCheck is this operator's own value check.
+func (n *Node) ValueCheck(data []byte) error {
+	if n.Refuses != nil && bytes.Equal(data, n.Refuses) {
+		return fmt.Errorf("value refused by this operator's own check")
+	}
+	return ValueCheck(data)
 }
 
 func (c *Cluster) Honest() []*Node {
